@@ -73,3 +73,13 @@ Theorem C26_redis_partial : forall s i j a b,
   s_believes a = true -> s_believes b = true -> i = j /\ s_owner s = Some i.
 Proof. exact redis_exclusive_without_lapse. Qed.
 Print Assumptions C26_redis_partial.
+
+(* bounded sweep (the bound is part of the statement): on every schedule of at most
+   5 macro operations over two registrants that the harness can produce, directly
+   and through selfmon.withActiveLock, the boolean reflection [Ephemeral.ok]
+   evaluated on what the etcd model produces is true *)
+Theorem C26_ok_accepts_etcd_model_bounded :
+  forallb (fun ops => negb (e_legal e_start ops) || ok_on_model BEtcd [1%Z; 1%Z] ops) (schedules 5) = true /\
+  forallb (fun ops => negb (ew_legal (e_start, None) ops) || ok_on_model BEtcdW [1%Z; 1%Z] ops) (schedules 5) = true.
+Proof. exact ok_sound_on_etcd_model_bounded. Qed.
+Print Assumptions C26_ok_accepts_etcd_model_bounded.
